@@ -57,7 +57,9 @@ fn cases(thorough: bool) -> Vec<Case> {
     v.push(case("empty-range", "Qs8d2h", &["text:"], true, 0, 1176));
     v.push(case("empty-range", "Qs8d2h", &["text:XYZ"], true, 0, 1176));
     // the same through scope(), as every worker of the multi-thread example does
-    for sc in ["scope:0,1,48,49", "scope:0,1,10,20", "scope:10,20,48,49", "scope:47,48,48,49", "scope:5,6,5,6"] {
+    // ... including the degenerate windows a work splitter can hand out: empty at the start, in the middle, at the
+    // last position and AT THE TERMINAL (48,49)->(48,49), and one that only crosses a row end
+    for sc in ["scope:0,1,48,49", "scope:0,1,10,20", "scope:10,20,48,49", "scope:47,48,48,49", "scope:5,6,5,6", "scope:48,49,48,49", "scope:47,48,47,48", "scope:0,1,0,1", "scope:0,48,1,2"] {
         v.push(case("empty-range", "Qs8d2h", &[sc, "empty"], true, 0, 1176));
         v.push(case("empty-range", "Qs8d2h", &[sc, "list:AhKh", "empty"], true, 0, 1176));
         v.push(case("empty-range", "Qs8d2h", &[sc, "empty", "text:AA"], true, 0, 1176));
